@@ -56,6 +56,15 @@ def symfmt(fmt, args):
     return ''.join(out)
 
 
+def exact_token(x):
+    """placeholder standing for the exact decimal text of a symbolic number (input side of a reader harness)"""
+    if not isinstance(x, Sym):
+        return repr(float(x))
+    fid = len(FIELDS)
+    FIELDS[fid] = (x.e, 'r', 0)
+    return f"{L}{fid}{R}"
+
+
 def parse_num(tok, want):
     """model of float()/int() on a token that is exactly one placeholder"""
     if not isinstance(tok, str):
@@ -69,6 +78,10 @@ def parse_num(tok, want):
     e, c, p = FIELDS[int(m.group(1))]
     if c == 'd':
         return Sym(e) if want == 'int' else Sym(z3.ToReal(e))
+    if c == 'r':      # an exact decimal rendering of the term (as in hand-written input files): parses back to the term itself
+        if want == 'int':
+            raise ValueError("invalid literal for int() with base 10")
+        return Sym(toz(Sym(e), True))
     if c == 'f':
         if want == 'int':
             raise ValueError("invalid literal for int() with base 10")
